@@ -791,8 +791,17 @@ macro_rules! do_ctx {
     };
 }
 macro_rules! do_cross {
-    ($run:expr, $rng:expr, $n:expr, $pool:expr; $($t:ty),*) => {
-        $( for _ in 0..$n { let x = $rng.pick($pool).clone(); run_cross::<$t>($run, &x, stringify!($t)); } )*
+    ($run:expr, $rng:expr, $n:expr, $pool:expr, $nums:expr; $($t:ty),*) => {
+        $( {
+            // numeric targets mostly meet numbers (every representation, every boundary): the
+            // width/sign/rounding rules of the acceptance table
+            let numeric = { let t = <$t as Model>::ty(); t.starts_with("(TInt") || t.starts_with("(TFloat") };
+            let n = if numeric { $n * 4 } else { $n };
+            for _ in 0..n {
+                let x = if numeric && $rng.chance(5, 6) { $rng.pick($nums).clone() } else { $rng.pick($pool).clone() };
+                run_cross::<$t>($run, &x, stringify!($t));
+            }
+        } )*
     };
 }
 macro_rules! do_pool {
@@ -865,16 +874,24 @@ fn main() {
     run_rt::<u64>(&mut run, &u64::MAX, "u64");
     run_rt::<BTreeMap<FKey, u8>>(&mut run, &BTreeMap::from([(FKey(1.5), 1)]), "BTreeMap<FKey, u8>");
 
-    let n_rt = if thorough { 600 } else { 22 };
+    let n_rt = if thorough { 500 } else { 22 };
     for_all_types!(do_rt, &mut run, &mut rng, n_rt);
 
     do_int_text!(&mut run; u8, u16, u32, u64, u128, usize, i8, i16, i32, i64, i128, isize);
 
     let pool = cross_pool(&mut rng);
-    let n_cross = if thorough { 160 } else { 10 };
-    for_all_types!(do_cross, &mut run, &mut rng, n_cross, &pool);
+    let mut nums = pools::int_values();
+    nums.extend(pools::float_pool().into_iter().map(Value::from));
+    for k in [8u32, 16, 24, 32, 53, 64] {
+        for d in [-1i128, 0, 1] {
+            nums.push(Value::from(((1i128 << k) + d) as u64));
+            nums.push(Value::from(-((1i128 << (k - 1)) + d) as i64));
+        }
+    }
+    let n_cross = if thorough { 110 } else { 8 };
+    for_all_types!(do_cross, &mut run, &mut rng, n_cross, &pool, &nums);
 
-    let n_ctx = if thorough { 60 } else { 3 };
+    let n_ctx = if thorough { 30 } else { 3 };
     for_all_types!(do_ctx, &mut run, &mut rng, n_ctx);
 
     let Run { rt, cross, ctx, mut meta, oracle_only, .. } = run;
